@@ -49,6 +49,8 @@ func sameConds(a, b *effect) bool {
 
 func c23(r *Run) {
 	w := r.W
+	// expiry exactness is the expiry heap's (SetMin pops exactly the entries below the new minimum)
+	defer r.importRules(c25, "C25.R1")
 	MP := "(*" + pkgMempool + ".Mempool)."
 	r.rule("C23.R1", "K4", "bookkeeping fields only under mu; helpers only with mu held", 30)
 	r.rule("C23.R2", "K7", "insertion and the three removal paths update queue, heap, owned and pendingSize together", 4)
